@@ -70,7 +70,9 @@ def storage_oracle(ctx, sp, o, mode, mp, x, out, dt):
             trig = {'what': 'block_size with inflow or start level != end level'}
         if a.get('no_simult_in_out') and mode != 'boxpoint' and ((ch > tol) & (di > tol)).any():
             bad['simultaneous charge and discharge'] = [[float(v) for v in ch], [float(v) for v in di]]
-        if a.get('max_store_duration') is not None and mode != 'boxpoint':
+        if a.get('max_store_duration') is not None and mode != 'boxpoint' and not a.get('freq'):
+            # (a storage on a coarser frequency of its own has a level per coarse step only; spreading its dispatch evenly over the fine steps
+            # is a reporting convention, the holding duration is not judged on the fine steps)
             # longest run (in main time units) with non-zero level
             run, worst = 0.0, 0.0
             for t in steps:
